@@ -11,7 +11,7 @@ Bad(e, inv, ok) == IF ok THEN {} ELSE {[id |-> e.id, inv |-> inv, kind |-> e.kin
 
 Judge(e) ==
     \* the decision functions
-    Bad(e, "IsValidIngress", e.validfrom = Sel(e.from) /\ e.validto = Sel(e.to)) \cup
+    Bad(e, "IsValidIngress", (e.kind = "batch" \/ e.validfrom = Sel(e.from)) /\ e.validto = Sel(e.to)) \cup
     Bad(e, "IngressList", e.listed = Sel(e.to)) \cup
     \* a freshly started controller configures the host iff selected
     Bad(e, "FreshConfigured", e.freshconfigured = Sel(e.to)) \cup
